@@ -17,6 +17,7 @@ pub mod c09;
 pub mod c10;
 pub mod c14;
 pub mod c15;
+pub mod c16;
 pub mod c18;
 pub mod c19;
 
@@ -62,6 +63,8 @@ table! {
     c10::h_roundtrip_api,
     c10::h_classify,
     c10::h_lines,
+    c16::h_records,
+    c16::h_io_error,
     c03::h_laws2,
     c03::h_trans,
     c03::h_api_laws,
